@@ -28,8 +28,8 @@ ASSUMPTIONS = [
     "for mixed-type sequences only the laws are checked, not a particular inferred dtype",
 ]
 BOUND = {
-    "quick": "sequences of length 0..3 over 21 scalars (9724 sequences); explicit dtypes for homogeneous sequences; equal() relation over all pairs of vectors of length <= 2 built from 12 scalars",
-    "thorough": "sequences of length 0..4 over 21 scalars (204205 sequences); equal() relation over all pairs of vectors of length <= 2 built from all 21 scalars",
+    "quick": "sequences of length 0..3 over 22 scalars; explicit dtypes for homogeneous sequences; equal() relation over all pairs of vectors of length <= 2 built from 12 scalars",
+    "thorough": "sequences of length 0..4 over 22 scalars; equal() relation over all pairs of vectors of length <= 2 built from all 22 scalars",
 }
 TIME_CAP = {"quick": 240, "thorough": 3000}
 
@@ -62,6 +62,7 @@ SCALARS = {
     "np.str": np.str_("a"),
     "np.dt64": np.datetime64("2020-02-29"),
     "np.NaT": np.datetime64("NaT"),
+    "np.td64": np.timedelta64(1, "D"),
     "dict": DICT,
     "inst": INST,
 }
@@ -71,7 +72,7 @@ FAMILY = {
     "True": "bool", "1": "int", "big": "int", "1.5": "float", "a": "str", "empty": "str",
     "date": "date", "datetime": "datetime", "timedelta": "timedelta", "bytes": "bytes",
     "np.int64": "np.int", "np.float64": "np.float", "np.bool": "np.bool", "np.str": "np.str",
-    "np.dt64": "np.dt64", "np.NaT": "np.dt64", "dict": "object", "inst": "object",
+    "np.dt64": "np.dt64", "np.NaT": "np.dt64", "np.td64": "np.td64", "dict": "object", "inst": "object",
 }
 DATEISH = {"date", "datetime", "np.dt64"}
 EXPLICIT = {
@@ -136,6 +137,8 @@ def expected_homogeneous(fam, has_missing, dtype):
             return ("datetime64[us]", "NaT")
         if fam == "np.dt64":
             return ("datetime64", "NaT")
+        if fam == "np.td64":
+            return ("timedelta64", "NaTd")
         if fam in ("object", "bytes", "timedelta"):
             return ("object", "None") if has_missing else (None, None)
         return None
@@ -162,6 +165,8 @@ def dtype_matches(v, want):
         return v.is_string() or v._is_string_fixed()
     if want == "datetime64":
         return v.is_datetime()
+    if want == "timedelta64":
+        return v.is_timedelta()
     return str(v.dtype) == want
 
 
@@ -171,6 +176,8 @@ def na_kind_ok(v, i, kind):
         return isinstance(x, (float, np.floating)) and math.isnan(x)
     if kind == "NaT":
         return isinstance(x, np.datetime64) and np.isnat(x)
+    if kind == "NaTd":
+        return isinstance(x, np.timedelta64) and np.isnat(x)
     if kind == "''":
         return x == ""
     if kind == "None":
@@ -180,6 +187,8 @@ def na_kind_ok(v, i, kind):
 
 def same_orig(a, b):
     """tolist value vs original scalar."""
+    if isinstance(b, np.timedelta64):
+        b = b.astype("timedelta64[us]").item()
     if isinstance(b, np.generic):
         if isinstance(b, np.datetime64):
             b = b.astype("datetime64[us]").item() if not np.isnat(b) else None
@@ -318,6 +327,9 @@ def excluded(names):
     nonmiss = {FAMILY[x] for x in names if x not in MISSING}
     # NaT scalars mixed into non-date sequences (DESIGN 3.5)
     if "np.NaT" in names and not nonmiss <= DATEISH:
+        return True
+    # a timedelta64 scalar mixed with numbers: NumPy reinterprets the numbers as durations (not a dataiter decision)
+    if "np.td64" in names and not nonmiss <= {"np.td64", "timedelta"}:
         return True
     return False
 
